@@ -587,7 +587,11 @@ impl DeriveShape for Expression {
                         if let Shape::TypeErr(_, _) = &shape {
                             // Don't update symbol table on type errors
                         } else {
-                            if let Shape::Hole(_) = &left_shape {
+                            // `env` is the implicit tuple of environment
+                            // variables. Its fields are not known statically, so
+                            // one access must not close its shape for the next.
+                            let is_env = pi.val.as_ref() == "env";
+                            if let (Shape::Hole(_), false) = (&left_shape, is_env) {
                                 let inferred = infer_container_shape_from_dot(
                                     &left_shape,
                                     &def.right,
